@@ -6,7 +6,7 @@ import numpy as np
 
 from common import Driver, prove, rng
 
-PROP_MODULES = ['PhotVerif.Props.C06']
+PROP_MODULES = ['PhotVerif.Props.C06', 'PhotVerif.Props.C06Dtype']
 
 
 # ---------------------------------------------------------------- scenes
@@ -103,6 +103,43 @@ def per_source_results(data, segm, labels_sel, params):
             full[slc][sd > 0] = sd[sd > 0]
             res[lab] = full
     return res
+
+
+def dtype_correspondence(rep, drv, r, n):
+    """(T) `_fit_label_dtype` (the widening of the output label array when a new child label does not fit) vs the Lean model
+    `fitDtype`; (S) the returned array holds every old value and the new label"""
+    from photutils.segmentation.deblend import _fit_label_dtype
+    dts = [np.uint8, np.int8, np.uint16, np.int16, np.uint32, np.int32, np.uint64, np.int64]
+    lines, exps = [], []
+    for _ in range(n):
+        dt = np.dtype(r.choice(dts))
+        mx = int(np.iinfo(dt).max)
+        v = r.choice([mx, mx + 1, mx + 2, 2 * mx + 1, 2 * mx + 2, r.randint(0, mx), r.randint(mx, 4 * mx + 4), 255, 256, 65535, 65536, 2 ** 31, 2 ** 32])
+        if v >= 2 ** 64:
+            continue
+        arr = np.array([[0, mx, 1]], dtype=dt)
+        try:
+            out = _fit_label_dtype(arr, v)
+        except Exception as e:                                  # noqa: BLE001
+            rep.violation(f'fit_label_dtype-raises:{type(e).__name__}', f'_fit_label_dtype({dt}, {v}) raised {e!r}', {'dtype': str(dt), 'value': v})
+            continue
+        od = out.dtype
+        lines.append(f'fitdtype {"i" if dt.kind == "i" else "u"} {dt.itemsize * 8} {v}')
+        exps.append('ok float' if od.kind == 'f' else f'ok {"i" if od.kind == "i" else "u"} {od.itemsize * 8}')
+        rep.case(('fitdtype', str(dt), v), v > mx, kind=f'fit-label-dtype:{dt}')
+        if od.kind in 'iu' and not (v <= int(np.iinfo(od).max) and np.array_equal(out.astype(object), arr.astype(object))):
+            rep.violation('fit_label_dtype-loses-values', f'_fit_label_dtype({dt}, {v}) returned {od}: the value or an old label does not fit', {'dtype': str(dt), 'value': v})
+    got = drv.run(lines)
+    if got is None:
+        rep.tie_broken('model driver failed (fitdtype)', drv.error)
+        return
+    nb = 0
+    for ln, o, e in zip(lines, got, exps):
+        rep.traces += 1
+        if o != e:
+            nb += 1
+            if nb <= 3:
+                rep.tie_broken('label dtype model and _fit_label_dtype disagree', {'op': ln, 'model': o, 'impl': e})
 
 
 def check_output(rep, data, segm, out, params, labels_arg, D, replay):
@@ -302,6 +339,7 @@ def run(rep, tier):
             metas.append(replay)
     if thorough:
         real_pool(rep, r, 6)
+    dtype_correspondence(rep, drv, r, 60 * scale)
     out = drv.run(lines)
     if out is None:
         rep.tie_broken('model driver failed', drv.error)
